@@ -520,4 +520,161 @@ example : noFaults [Fault.none, Fault.none] := by intro f hf; simp at hf; exact 
 example : claim [⟨0, [0, 1]⟩] [] = some 0 := by decide
 example : (0 : Nat) ∈ offsOf 0 [⟨0, [0, 1]⟩] := by decide
 
+/-! ### histories in which new segments complete between cycles -/
+
+/-- listing `b` extends listing `a`: per partition, `a`'s offsets are a prefix of `b`'s (new
+segments only ever appear at the end of a partition) -/
+def Extends (a b : List Seg) : Prop := ∀ tp, offsOf tp a <+: offsOf tp b
+
+inductive GOp where
+  | cycle (segs : List Seg) (o : Oracle)   -- this tick's `ListCompleted` result and failure oracle
+  | leaseLost
+
+def grun (k : StoreKind) : List Seg → St → List GOp → List Seg × St
+  | cur, s, [] => (cur, s)
+  | _, s, .cycle segs o :: rest => grun k segs (cycle k segs o s) rest
+  | cur, s, .leaseLost :: rest => grun k cur { s with lease := none } rest
+
+/-- every listing extends the previous one and is in offset order per partition -/
+def GoodHistory : List Seg → List GOp → Prop
+  | _, [] => True
+  | cur, .cycle segs _ :: rest => Extends cur segs ∧ SortedTP segs ∧ GoodHistory segs rest
+  | cur, .leaseLost :: rest => GoodHistory cur rest
+
+/-- the checkpoint of a partition is −1 or the offset of a listed record -/
+def CpListed (k : StoreKind) (segs : List Seg) (s : St) : Prop :=
+  ∀ tp, load k s tp = -1 ∨ ∃ o ∈ offsOf tp segs, load k s tp = (o : Int)
+
+theorem offsOf_mem_of_mem {tp : Nat} {segs : List Seg} {seg : Seg} (hs : seg ∈ segs) (ht : seg.tp = tp)
+    {o : Nat} (ho : o ∈ seg.offs) : o ∈ offsOf tp segs := by
+  induction segs with
+  | nil => simp at hs
+  | cons a rest ih =>
+    rcases List.mem_cons.mp hs with rfl | h'
+    · simp [offsOf, ht, ho]
+    · unfold offsOf; split
+      · exact List.mem_append.mpr (Or.inr (ih h'))
+      · exact ih h'
+
+theorem process_cpListed (k : StoreKind) (tp : Nat) (A : List Nat) (rest : List Seg) :
+    ∀ (fs : List Fault) (s : St), (∀ seg ∈ rest, seg.tp = tp → ∀ o ∈ seg.offs, o ∈ A) →
+      (load k s tp = -1 ∨ ∃ o ∈ A, load k s tp = (o : Int)) →
+      (load k (process k tp rest fs s) tp = -1 ∨ ∃ o ∈ A, load k (process k tp rest fs s) tp = (o : Int)) := by
+  induction rest with
+  | nil => intro fs s _ h; simpa [process] using h
+  | cons seg rest ih =>
+    intro fs s hA h
+    rw [process_cons]
+    have hA' : ∀ x ∈ rest, x.tp = tp → ∀ o ∈ x.offs, o ∈ A := fun x hx => hA x (List.mem_cons_of_mem _ hx)
+    by_cases htp : seg.tp = tp
+    · rcases segBody_cases k tp seg (fs.headD .none) s htp with e | ⟨_, e⟩ | ⟨_, e⟩ | ⟨hrecs, e⟩ <;> rw [e]
+      · simpa using h
+      · simp only [if_true]; exact ih _ _ hA' h
+      · simp only [if_true]; exact ih _ _ hA' (by simpa using h)
+      · simp only [if_true]
+        apply ih _ _ hA'
+        rcases load_commit_self k { s with sink := s.sink ++ tagged tp (keep (load k s tp) seg.offs) } tp
+          (((keep (load k s tp) seg.offs).getLast?.getD 0 : Nat) : Int) with he | he
+        · right
+          refine ⟨_, hA seg (by simp) htp _ (mem_keep.mp (getLast_mem_of_ne_nil hrecs)).1, he⟩
+        · left; exact he
+    · rw [segBody_other k tp seg _ s htp]
+      simp only [if_true]
+      exact ih _ _ hA' h
+
+theorem cycle_cpListed (k : StoreKind) (segs : List Seg) (o : Oracle) (s : St) (h : CpListed k segs s) :
+    CpListed k segs (cycle k segs o s) := by
+  have hl : ∀ l, CpListed k segs { s with lease := l } := by
+    intro l t; cases k <;> exact h t
+  have key : ∀ (tp : Nat) (s' : St), CpListed k segs s' → CpListed k segs (process k tp segs o.faults s') := by
+    intro tp s' h' t
+    by_cases ht : t = tp
+    · subst ht
+      exact process_cpListed k t (offsOf t segs) segs o.faults s'
+        (fun seg hseg htp x hx => offsOf_mem_of_mem hseg htp hx) (h' t)
+    · rw [(process_frame k tp segs o.faults s').other t ht]; exact h' t
+  unfold cycle
+  split
+  · exact h
+  · simp only []
+    split
+    · split
+      · exact h
+      · exact hl _
+    · rename_i tp htp
+      split at htp
+      · exact key tp s h
+      · exact key tp _ (hl _)
+
+/-- a longer listing keeps the invariants -/
+theorem extend_inv (k : StoreKind) (cur segs : List Seg) (s : St) (he : Extends cur segs) (hs : SortedTP segs)
+    (hc : Covered k cur s) (hp : CpListed k cur s) : Covered k segs s ∧ CpListed k segs s := by
+  constructor
+  · intro tp o ho hle
+    obtain ⟨suffix, hsuf⟩ := he tp
+    rw [← hsuf] at ho
+    rcases List.mem_append.mp ho with h | h
+    · exact hc tp o h hle
+    · exfalso
+      rcases hp tp with hm | ⟨o', ho', hm⟩
+      · rw [hm] at hle; omega
+      · have hsorted := hs tp
+        rw [← hsuf] at hsorted
+        have := (List.pairwise_append.mp hsorted).2.2 o' ho' o h
+        rw [hm] at hle; omega
+  · intro tp
+    rcases hp tp with hm | ⟨o', ho', hm⟩
+    · exact Or.inl hm
+    · obtain ⟨suffix, hsuf⟩ := he tp
+      exact Or.inr ⟨o', by rw [← hsuf]; exact List.mem_append.mpr (Or.inl ho'), hm⟩
+
+theorem grun_covered (k : StoreKind) (ops : List GOp) :
+    ∀ (cur : List Seg) (s : St), GoodHistory cur ops → Covered k cur s → CpListed k cur s →
+      Covered k (grun k cur s ops).1 (grun k cur s ops).2 := by
+  induction ops with
+  | nil => intro cur s _ hc _; simpa [grun] using hc
+  | cons op rest ih =>
+    intro cur s hg hc hp
+    cases op with
+    | cycle segs o =>
+      simp only [GoodHistory] at hg
+      obtain ⟨he, hs, hg'⟩ := hg
+      obtain ⟨hc', hp'⟩ := extend_inv k cur segs s he hs hc hp
+      simp only [grun]
+      exact ih segs _ hg' (cycle_covered k segs o s hs hc') (cycle_cpListed k segs o s hp')
+    | leaseLost =>
+      simp only [GoodHistory] at hg
+      simp only [grun]
+      apply ih cur _ hg
+      · intro t x hx hle; cases k <;> exact hc t x hx hle
+      · intro t; cases k <;> exact hp t
+
+/-- **C33 (safety, growing log).** Also when new segments complete between polling cycles
+(every listing extends the previous one per partition and is in offset order): after any
+history of cycles, failure oracles and lease losses, every record of the LATEST listing at or
+below its partition's checkpoint is in the sink. -/
+theorem _root_.KafVerif.C33.checkpoint_covered_growing (k : StoreKind) (ops : List GOp)
+    (h : GoodHistory [] ops) : Covered k (grun k [] init ops).1 (grun k [] init ops).2 := by
+  apply grun_covered k ops [] init h
+  · intro t o ho; simp [offsOf] at ho
+  · intro t; left; cases k <;> simp [load, loadWith, init, noopLoad]
+
+example : GoodHistory [] [.cycle [⟨0, [0, 1]⟩] ⟨false, [], []⟩, .leaseLost,
+    .cycle [⟨0, [0, 1]⟩, ⟨0, [2]⟩] ⟨false, [], [.sink]⟩] := by
+  refine ⟨fun tp => ?_, fun tp => ?_, fun tp => ?_, fun tp => ?_, trivial⟩
+  · exact List.nil_prefix
+  · by_cases h : tp = 0
+    · subst h; decide
+    · have h' : (0 : Nat) ≠ tp := fun e => h e.symm
+      simp [offsOf, h']
+  · by_cases h : tp = 0
+    · subst h; exact ⟨[2], by decide⟩
+    · have h' : (0 : Nat) ≠ tp := fun e => h e.symm
+      simp [offsOf, h']
+  · by_cases h : tp = 0
+    · subst h; decide
+    · have h' : (0 : Nat) ≠ tp := fun e => h e.symm
+      simp [offsOf, h']
+
+
 end KafVerif.Processor
